@@ -70,5 +70,15 @@ func init() {
 		seeded("C17", "C17-3", "C17-O1", ""),
 		seeded("C18", "C18-4", "C18-E3", ""),
 		seeded("C19", "C19-3", "C19-K5", "MergeBranch parameter childBranch"),
+		// round 6 (C03-3, a wrong-endian hand-rolled decoder, is value-level: stored, not claimed)
+		seeded("C01", "C01-4", "C01-C1", "scannerSync).Pull marks the scan finished"),
+		seeded("C02", "C02-3", "C02-M1", "formatMap tests the key type"),
+		seeded("C04", "C04-4", "C04-W3", "uniq.Op).Pull"),
+		seeded("C06", "C06-3", "C06-M1", "reads hol["),
+		seeded("C09", "C09-3", "C09-G4", "isSingleField"),
+		seeded("C12", "C12-4", "C12-P4", "Store).Move"),
+		seeded("C14", "C14-4", "C14-M1", "captures the first key"),
+		seeded("C15", "C15-3", "C15-V1", "Revert emits"),
+		seeded("C20", "C20-3", "C20-A1", "Consume records"),
 	)
 }
